@@ -44,6 +44,10 @@ struct Cfg
   bool xflush_result        = true;
   std::vector<std::vector<Op>> threads;
   std::vector<Op> tail;
+  // "acknowledged right at the deadline": the exporter's latency equals a finite ForceFlush timeout of the scenario
+  // and the scheduler wakes timers that expire within 30 us of each other together (vsched::Options::timer_slack_ns),
+  // so the worker's acknowledgement and the caller's time-out race.  (Seeded C02-m11.)
+  bool aligned = false;
 };
 
 struct ExportRec
@@ -83,7 +87,7 @@ inline std::string describe(const Cfg &c)
   std::string s = "reader interval=" + std::to_string(c.interval_ms) + "ms timeout=" + std::to_string(c.timeout_ms) +
                   "ms export{lat=" + show_us(c.export_latency_us) + ",fail_every=" +
                   std::to_string(c.export_fail_every) + "} xflush{lat=" + show_us(c.xflush_latency_us) + ",res=" +
-                  (c.xflush_result ? "1" : "0") + "}\n";
+                  (c.xflush_result ? "1" : "0") + "}" + (c.aligned ? " aligned" : "") + "\n";
   auto prog = [](const std::vector<Op> &p) {
     std::string o;
     for (auto &op : p)
@@ -151,6 +155,21 @@ inline Cfg gen_cfg(vh::Reader &rd)
     c.threads.push_back(gen_prog(5, true));
   if (rd.coin())
     c.tail = gen_prog(4, true);
+  // decided from what was drawn, no further stream byte is read
+  if (c.xflush_latency_us == 2000)
+  {
+    int64_t finite = 0;
+    for (auto &t : c.threads)
+      for (auto &op : t)
+        if (op.kind == Op::FLUSH && op.arg > 0 && op.arg <= 50000 && !finite)
+          finite = op.arg;
+    if (finite)
+    {
+      c.aligned           = true;
+      c.export_latency_us = finite;
+      c.xflush_latency_us = 0;
+    }
+  }
   return c;
 }
 
@@ -238,7 +257,12 @@ inline void run_scenario(vh::Case &c, const Cfg &cfg, History &h)
   vsh::ByteSource src(c.rd, 40);
   vsched::Options opt;
   opt.step_budget = 2000000;
-  c.note(std::string(" schedule-mode=") + src.mode_name() + "\n");
+  if (cfg.aligned)
+  {
+    opt.timer_slack_ns = 30000;
+    c.tag("export-latency-equals-a-flush-timeout");
+  }
+  c.note(std::string(" schedule-mode=") + src.mode_name() + (cfg.aligned ? " timer-slack=30us" : "") + "\n");
   h.rs = vsched::run(&src, opt, vsh::fatal, [&](vsched::Scheduler &s) {
     StubProducer producer(h);
     sdkm::PeriodicExportingMetricReaderOptions o;
